@@ -110,11 +110,36 @@ Perturb(w) ==
   \cup {SubSeq(w, 1, i - 1) \o SubSeq(w, i + 1, Len(w)) : i \in 1..Len(w)}
 KwWords == {w \in UNION {Perturb(w) : w \in KwBase} : w # <<>>}
 
+(* hand-picked bodies run together with the keyword words: universal character names (the two NoUCN deviations), the
+   classic maximal-munch examples of the property statement *)
+SeedBodies ==
+  { <<"a","\\","u","0","0","e","9","b">>,
+    <<"\"","\\","u","0","0","e","9","\"">>,
+    <<"'","\\","u","0","0","e","9","'">>,
+    <<"1","\\","u","0","0","e","9">>,
+    <<"\\","u","0","0","e","9">>,
+    <<"\\","U","0","0","0","0","0","0","e","9","x">>,
+    <<"i","n","t"," ","a","<",":","3",":",">",";">>,
+    <<"a","+","+","+","b">>,
+    <<"a","-","-","-","b">>,
+    <<"x","<","<","=","y">>,
+    <<"1","e","+","5","-","1">>,
+    <<"0","x","e","+","1">>,
+    <<"u","8","\"","s","\"">>,
+    <<"u","8"," ","\"","s","\"">>,
+    <<"a","-",">","b">>,
+    <<"a","-","-",">","b">>,
+    <<".","."," ",".",".",".">>,
+    <<"L","'","a","'","L","\"","a","\"">> }
+
+
 (* chunk sets for the configurations *)
 Chars(S) == {<<c>> : c \in S}
 PunctChunks == Chars({"[", "]", "(", ")", "{", "}", ".", "-", "+", "&", "*", "~", "!", "/", "%", "<", ">", "=", "^", "|", "?", ":", ";", ",", "#"})
 PunctChunksSmall == Chars({"(", ".", "-", "+", "&", "*", "!", "/", "%", "<", ">", "=", "^", "|", "?", ":", ";", "#"})
 DigraphChunks == Chars({"<", ">", ":", "%", "=", "#", ".", "-"})           \* where the deviation-free variant differs from the code
+NumChunks == Chars({"1", "e", "p", "+", "-", ".", "x", "_"})                  \* pp-number / sign interplay at greater length
+PrefixChunks == Chars({"u", "U", "L", "8", SQ, DQ, "a"})                      \* encoding prefixes against identifiers
 LitChunks == Chars({"0", "1", "8", "9", "e", "E", "p", "x", ".", "+", "-", "_", "a", "u", "U", "L", SQ, DQ, BS})
 
 (* pieces for random long texts (simulation): multi-character punctuators, pp-numbers with signs, prefixes,
@@ -138,14 +163,14 @@ MixChunks ==
     <<"\"","a","\\","n","\"">>, <<"\"","/","*","\"">>, <<"\"","/","/","\"">>, <<"'","\"","'">>,
     <<"\"","'","\"">>, <<"\"","\"">>, <<"/","*","*","/">>, <<"/","*"," ","*"," ","/"," ","*","/">>,
     <<"/","*","'","*","/">>, <<"/","*","\"","\n","/","/","*","/">>, <<" ">>, <<"\\","\n">>,
-    <<"/","/">>, <<"@">>, <<"\\">> }
+    <<"/","/">>, <<"@">>, <<"\\">>, <<"8">> }
 
 (* ====================================================================== *)
 Init ==
   /\ body = <<>> /\ sc = Scanner0 /\ out = <<>> /\ acts = {}
   /\ IF Mode = "kw"
      THEN /\ phase = "scan"
-          /\ src \in {Leader \o w \o <<NL>> : w \in KwWords}
+          /\ src \in {Leader \o w \o <<NL>> : w \in KwWords \cup SeedBodies}
      ELSE /\ phase = "build"
           /\ src = <<>>
 
